@@ -417,6 +417,29 @@ func main() {
 					v[j] = g.bigFloatTok()
 				}
 			}
+			// correlated triple (added after seeded defect C18a): a low-precision BigFloat holding a
+			// large integer value and Ints within +-1 of that value, so that a conversion of the
+			// Int at the BigFloat's precision rounds it onto the BigFloat
+			if g.r.Chance(1, 3) {
+				prec := hx.Pick(g.r, []int{24, 53, 64})
+				var n *big.Int
+				if g.r.Chance(1, 2) {
+					n = new(big.Int).Exp(big.NewInt(10), big.NewInt(int64(g.r.Range(20, 40))), nil)
+				} else {
+					n = new(big.Int).Lsh(big.NewInt(int64(g.r.Range(1, 7))), uint(g.r.Range(64, 140)))
+				}
+				if g.r.Chance(1, 2) {
+					n.Neg(n)
+				}
+				f := new(big.Float).SetPrec(uint(prec)).SetInt(n)
+				exact, _ := f.Int(nil)
+				v[0] = fmt.Sprintf("b:%d:%s", prec, f.Text('p', 0))
+				v[1] = "I:" + new(big.Int).Add(exact, big.NewInt(int64(g.r.Range(-1, 1)))).String()
+				v[2] = "I:" + new(big.Int).Add(exact, big.NewInt(int64(g.r.Range(-1, 1)))).String()
+				if g.r.Chance(1, 2) {
+					v[0], v[1] = v[1], v[0]
+				}
+			}
 			in = "T " + v[0] + " " + v[1] + " " + v[2]
 		default:
 			v := g.values(2)
